@@ -325,13 +325,18 @@ static void k_pem_roundtrip(Tape &t)
 	size_t l0 = br_pem_encode(nullptr, nullptr, n, banner.c_str(), flags);
 	Bytes out(l0 + 9, 0xEE);
 	bool inplace = t.flag();
-	size_t l1;
+	size_t l1, srcoff = 0;
 	if (inplace) {
-		// data and dest may overlap (source destroyed): put the source at the end of the destination buffer
-		memcpy(out.data() + l0 + 1 - n, data.data(), n);
-		l1 = br_pem_encode(out.data(), out.data() + l0 + 1 - n, n, banner.c_str(), flags);
+		// data and dest may overlap (source destroyed): the source sits anywhere inside the destination buffer - at its
+		// end, at its very start (armouring a key in place), under the header line, or at a generated offset
+		size_t room = l0 + 1 - n;
+		unsigned ps = t.u8() % 4;
+		srcoff = ps == 0 ? room : ps == 1 ? 0 : ps == 2 ? (size_t)t.range(0, (int)std::min(room, (size_t)(20 + bl))) : (size_t)t.range(0, (int)room);
+		memcpy(out.data() + srcoff, data.data(), n);
+		l1 = br_pem_encode(out.data(), out.data() + srcoff, n, banner.c_str(), flags);
+		stats.cls(srcoff == room ? "pem:in-place-source-at-end" : srcoff == 0 ? "pem:in-place-source-at-start" : srcoff < 17 + bl ? "pem:in-place-source-under-header" : "pem:in-place-source-inside");
 	} else l1 = br_pem_encode(out.data(), data.data(), n, banner.c_str(), flags);
-	std::string desc = fmt("PEM payload=%zu flags=%u banner=%zu%s", n, flags, bl, inplace ? " in-place" : "");
+	std::string desc = fmt("PEM payload=%zu flags=%u banner=%zu%s", n, flags, bl, inplace ? fmt(" in-place(source at +%zu)", srcoff).c_str() : "");
 	VF_CHECK(l0 == l1, "%s: length query %zu, written %zu", desc.c_str(), l0, l1);
 	VF_CHECK(out[l1] == 0 && out[l1 + 1] == 0xEE, "%s: terminating zero / overrun", desc.c_str());
 	std::string text((const char *)out.data(), l1);
